@@ -331,6 +331,8 @@ def units(tier):
                 us.append(("unit_swap_up", (m, n)))
             us.append(("unit_identical", (m, n)))
     us.insert(0, ("unit_gauss_contracts", ()))
+    if tier == "quick":
+        us += [("unit_compute", (m, (1,) * 6)) for m in extract.MODELS]
     return us
 
 
